@@ -38,6 +38,16 @@ Theorem C07_dnf_exact :
 Proof. exact normalize_nf. Qed.
 Print Assumptions C07_dnf_exact.
 
+(* what the expansions emit: one fork branch per alternative of the DNF, in it one head per member
+   occurrence and WaitForHeads(number of members); a single-member alternative is a plain match;
+   `when` always forks, match/await only for more than one alternative *)
+Theorem C07_compile_shape :
+  forall (A : Type) (st : stmt) (f : formula A),
+    compile st f = Some (prog_of st (nf f))
+    /\ (forall (c ms : list A) (n : nat), branch_of c = BAnd ms n -> ms = c /\ n = length c).
+Proof. exact (fun A st f => Logic.conj (compile_spec A st f) (branch_of_wait A)). Qed.
+Print Assumptions C07_compile_shape.
+
 (* the expansion of a group statement never raises *)
 Theorem C07_no_error :
   forall (A E : Type) (mt : A -> E -> bool) (st : stmt) (f : formula A) (evs : list E),
